@@ -20,8 +20,8 @@ EXTENDS ValueTypesCore, TLC, Json, IOUtils
 
 Traces == JsonDeserialize(IOEnv.TRACE_FILE)
 
-VARIABLES tid, l, S, verdict, at
-vars == <<tid, l, S, verdict, at>>
+VARIABLES tid, l, S, verdict, at, who
+vars == <<tid, l, S, verdict, at, who>>
 
 Tr == Traces[tid]
 NE == Len(Tr.ev)
@@ -79,6 +79,21 @@ ResultClause(e, S1, S2, ev) ==
   ELSE IF IsTuple(o) /\ x.tup # o.n THEN "tuple-view-differs"
   ELSE "ok"
 
+\* the offending pairs of the four equality / hashing clauses, and the class the signature names
+EqBad(e, S2) ==
+  LET D == DOMAIN S2
+      P1 == {<<m, q>> \in D \X D : e.obs.eq[m][q] = "X"}
+      P2 == {<<m, q>> \in D \X D : Eq3(S2[m], S2[q]) = "T" /\ e.obs.eq[m][q] # "T"}
+      P3 == {<<m, q>> \in D \X D : Eq3(S2[m], S2[q]) = "F" /\ e.obs.eq[m][q] # "F"}
+      P4 == {<<m, q>> \in D \X D : MustHashEqual(S2[m], S2[q]) /\ e.obs.heq[m][q] # "T"}
+  IN IF P1 # {} THEN P1 ELSE IF P2 # {} THEN P2 ELSE IF P3 # {} THEN P3 ELSE P4
+EqWho(e, S2) ==
+  LET B == EqBad(e, S2) IN
+  IF B = {} THEN ""
+  ELSE LET p == CHOOSE p \in B : \A r \in B : p[1] < r[1] \/ (p[1] = r[1] /\ p[2] <= r[2]) IN
+       \* a padding if one is involved, else the first object's class
+       IF IsPad(S2[p[2]]) /\ ~IsPad(S2[p[1]]) THEN S2[p[2]].cls ELSE S2[p[1]].cls
+
 EqClause(e, S2) ==
   LET D == DOMAIN S2 IN
   IF \E m, q \in D : e.obs.eq[m][q] = "X" THEN "eq-answers-inconsistent"
@@ -97,6 +112,7 @@ Clause(e, S1, S2) ==
     (CASE e.name \in ProbeOps -> "mutation-accepted"
        [] e.name \in {"to_exact", "get_padded_size", "exact_dims", "pad"} -> "relative-dimension-not-refused"
        [] e.name = "from_hex" -> "invalid-hex-string-accepted"
+       [] e.name = "new_abstract" -> "abstract-class-instantiated"
        [] OTHER -> "invalid-value-accepted")
   ELSE IF ev.res = "ok" /\ e.res # "ok" THEN "valid-operation-rejected"
   ELSE IF ev.res # e.res /\ e.name \notin ProbeOps THEN "wrong-exception-class"
@@ -117,6 +133,7 @@ Init ==
   /\ S = [i \in DOMAIN Traces[tid].init |-> ObjOf(Traces[tid].init[i])]
   /\ verdict = IF WFTrace(Traces[tid]) THEN "ok" ELSE "unsupported-trace"
   /\ at = 0
+  /\ who = ""
 
 Step ==
   /\ l < NE
@@ -129,18 +146,19 @@ Step ==
      IN /\ S' = S2
         /\ verdict' = v
         /\ at' = IF live /\ v # "ok" THEN l + 1 ELSE at
+        /\ who' = IF live /\ wf /\ v # "ok" /\ v = EqClause(e, S2) THEN EqWho(e, S2) ELSE who
   /\ UNCHANGED tid
 
 Finish ==
   /\ l = NE
   /\ l' = NE + 1
-  /\ UNCHANGED <<tid, S, verdict, at>>
+  /\ UNCHANGED <<tid, S, verdict, at, who>>
 
 Next == Step \/ Finish
 Spec == Init /\ [][Next]_vars
 
 Done == l = NE + 1
 Report ==
-  Done => PrintT(<<"VERDICT", ToJson([tid |-> tid, verdict |-> verdict, at |-> at,
+  Done => PrintT(<<"VERDICT", ToJson([tid |-> tid, verdict |-> verdict, at |-> at, who |-> who,
                                       judged |-> IF verdict = "ok" THEN NE ELSE at, events |-> NE])>>)
 =============================================================================
